@@ -78,7 +78,9 @@ TOKEN_CLASSES = [
     ("hex", ["0x0"]),
     ("empty", [""]),
     ("word", ["a", "true", "enum"]),
-    ("huge", ["99999999999999999999"]),
+    ("huge", ["99999999999999999999", "1" + "0" * 400]),
+    # canonical digit strings longer than CPython's int<->str conversion limit (4300 digits by default)
+    ("beyond-int-str-limit", ["1" * 4301, "9" * 5000]),
 ]
 CLASS_OF = {t: c for c, ts in TOKEN_CLASSES for t in ts}
 REPS = dict(TOKEN_CLASSES)
@@ -225,7 +227,7 @@ def ref_resolve(doc, frag):
                 raise pointer.PointerError("no member %r" % t)
             doc = doc[t]
         elif isinstance(doc, list):
-            if not CANONICAL.match(t) or int(t) >= len(doc):
+            if not CANONICAL.match(t) or len(t) > 18 or int(t) >= len(doc):
                 raise pointer.PointerError("no element %r" % t)
             doc = doc[int(t)]
         else:
@@ -286,7 +288,7 @@ def fails_neg(doc, prefix, tok, sp):
         return None
     if isinstance(c, dict) and tok in c:
         return None
-    if isinstance(c, list) and CANONICAL.match(tok) and int(tok) < len(c):
+    if isinstance(c, list) and CANONICAL.match(tok) and len(tok) <= 18 and int(tok) < len(c):
         return None
     return judge_neg(observe(doc, neg_fragment(prefix, tok, sp)))
 
